@@ -65,6 +65,7 @@ struct tsink {
     unsigned char buf[4200];
     size_t n;
     size_t fail_at; /* octet index at which the sink reports ERR_SINK */
+    int oneshot;    /* the failure happens once; afterwards the sink works again */
     size_t maxper;  /* chunk style: takes at most this many octets per call (0: all); 100 + k: never across a k-octet page */
 };
 
@@ -72,8 +73,11 @@ static int
 tsink_octet(void *drv, unsigned char c)
 {
     struct tsink *s = drv;
-    if (s->n == s->fail_at)
+    if (s->n == s->fail_at) {
+        if (s->oneshot)
+            s->fail_at = SIZE_MAX;
         return ERR_SINK;
+    }
     if (s->n >= sizeof s->buf)
         return -ENOMEM;
     s->buf[s->n++] = c;
@@ -95,8 +99,11 @@ tsink_chunk(void *drv, const void *p, size_t n)
         n = s->maxper;
     }
     for (i = 0; i < n; i++) {
-        if (s->n == s->fail_at)
+        if (s->n == s->fail_at) {
+            if (i == 0 && s->oneshot)
+                s->fail_at = SIZE_MAX;
             return i ? (ssize_t)i : ERR_SINK;
+        }
         if (s->n >= sizeof s->buf)
             return i ? (ssize_t)i : -ENOMEM;
         s->buf[s->n++] = c[i];
@@ -123,6 +130,7 @@ mk_sink(Sink *snk, struct tsink *t, int chunk)
 {
     t->n = 0;
     t->fail_at = SIZE_MAX;
+    t->oneshot = 0;
     /* chunk sinks take everything, one, two or three octets per call, or write in pages of 4 / 16 octets */
     static const size_t pers[] = { 0, 1, 0, 2, 104, 3, 0, 116 };
     static unsigned sink_toggle;
@@ -588,6 +596,7 @@ check_errors(const unsigned char *p, size_t n, int sof, int srcchunk, int sinkch
         ERR_SRC = err_codes[(k) % NERR];
         ERR_SINK = err_codes[(k + 4) % NERR];
         tk.fail_at = k;
+        tk.oneshot = (int)(k & 1); /* every second injected failure is transient */
         int rc = rfc1055_encode(&ctx, &src, &snk);
         if (rc != ERR_SINK)
             vh_fail("encode-sink-error", key, "payload=%s sink error at %zu: rc=%d expected %d", vh_hex(p, n), k, rc,
@@ -619,6 +628,7 @@ check_errors(const unsigned char *p, size_t n, int sof, int srcchunk, int sinkch
         ERR_SRC = err_codes[(k) % NERR];
         ERR_SINK = err_codes[(k + 4) % NERR];
         tk.fail_at = k;
+        tk.oneshot = (int)(k & 1); /* every second injected failure is transient */
         int rc = rfc1055_decode(&ctx, &src, &snk);
         if (rc != ERR_SINK)
             vh_fail("decode-sink-error", key, "payload=%s sink error at %zu: rc=%d expected %d", vh_hex(p, n), k, rc,
